@@ -66,6 +66,7 @@ def _attrs_classes():
 
 def prepare(tier):  # pylint: disable=unused-argument
     corpus.class_paths()
+    corpus.warm_variants()
     from simverif import workload
     workload.pools()
     _attrs_classes()
@@ -320,6 +321,25 @@ def grow_all(obj, amount, depth=0):
     return grown
 
 
+def _declared_type(validator):
+    """The type an attrs validator (instance_of / optional(instance_of) / and_) asks for, or None."""
+    if validator is None:
+        return None
+    declared = getattr(validator, 'type', None)
+    if isinstance(declared, tuple):
+        declared = declared[0] if declared else None
+    if isinstance(declared, type):
+        return declared
+    inner = getattr(validator, 'validator', None)
+    if inner is not None:
+        return _declared_type(inner)
+    for inner in getattr(validator, '_validators', ()) or ():
+        found = _declared_type(inner)
+        if found is not None:
+            return found
+    return None
+
+
 def edit_field(obj, rng, depth=0):
     """A caller edits a message before using it: assign another valid value to one randomly chosen public field
     (toggle a member of a flag set, another enum member, a nearby integer, a flipped bool, longer bytes), or edit
@@ -414,6 +434,13 @@ def edit_field(obj, rng, depth=0):
                 except Exception:  # refused by the vector's bounds  # pylint: disable=broad-except
                     pass
         other = _other_value(value)
+        if value is None:
+            # an optional field that is unset gets a value of the type its validator declares
+            declared = _declared_type(field.validator)
+            if declared is datetime.datetime:
+                other = (datetime.datetime(2030, 1, 2, 3, 4, 5, tzinfo=datetime.timezone.utc), )
+            elif declared in (int, str, bytes):
+                other = ({int: 1, str: 'x', bytes: b'x'}[declared], )
         if isinstance(value, enum.Enum):
             members = [m for m in type(value) if m is not value]
             other = (rng.choice(members), ) if members else None
@@ -608,8 +635,12 @@ def execute(doc):
         res.stats['edit_sweep_cases'] += len(plan)
     elif kind == 'purity':
         calls = list(SWEEP_CALLS) + ['compose'] + list(SWEEP_CALLS) + ['compose', 'repr'] + list(SWEEP_CALLS)
-        for hexdata in doc['inputs']:
-            _exec_observe({'kind': 'observe', 'subject': ['mutated', doc['cls'], hexdata, []], 'calls': calls}, res)
+        for number, hexdata in enumerate(doc['inputs']):
+            for cycle in range(3):
+                _exec_observe({'kind': 'observe', 'subject': ['mutated', doc['cls'], hexdata, []],
+                               'calls': calls if cycle == 0 else list(SWEEP_CALLS), 'break': number + cycle * 7}, res)
+                if res.violations:
+                    break
             if res.violations:
                 break
         res.sched_sig = ('purity', doc['cls'].rsplit('.', 1)[1], len(doc['inputs']))
@@ -695,11 +726,53 @@ def _exec_observe(doc, res):
                           'serialising leaves the class-level text encoder as it was', '%s()' % call)
             Serializable.post_text_encoder = encoder_before
             return
+    if doc.get('break') is not None and first:
+        _break_and_restore(obj, name, doc['break'], first, res)
+        if res.violations:
+            return
     res.sched_sig = ('observe', spec[0], name, tuple(seen)[:10], len(edits))
     res.nontrivial = any(outcome != 'ok' for _, outcome in seen) or len(seen) >= 3
     res.stats['runs.observe.' + spec[0]] += 1
     if spec[0] == 'client_hello' and any(o.startswith('raised') for _, o in seen):
         res.stats['probe.compose_failed_at_cipher_suite_ceiling'] += 1
+
+
+def _break_and_restore(obj, name, number, first, res):
+    """'Successfully or not': a caller assigns a value of the wrong type to a field (attrs does not validate
+    assignments), calls the observers - most of them fail now -, puts the old value back and calls them again.
+    Whatever the failed calls did, the observers return what they returned before."""
+    if not attr.has(type(obj)):
+        return
+    fields = [f for f in attr.fields(type(obj)) if not f.name.startswith('_')]
+    if not fields:
+        return
+    field = fields[number % len(fields)]
+    bad = (None, 0, 'x', b'x', -1)[(number // len(fields)) % 5]
+    try:
+        original = getattr(obj, field.name)
+        if type(original) is type(bad):  # pylint: disable=unidiomatic-typecheck
+            bad = [bad]
+        setattr(obj, field.name, bad)
+    except Exception:  # the field cannot be assigned  # pylint: disable=broad-except
+        return
+    failed = 0
+    try:
+        for call in first:
+            outcome = _outcome(_call_observer, obj, call)
+            failed += outcome[0] == 'raised'
+    finally:
+        setattr(obj, field.name, original)
+    res.stats['probe.field_broken_and_restored'] += 1
+    res.stats['fault.observer_call_failed'] += failed
+    res.event(name, 'break-restore', field.name, failed)
+    for call in first:
+        outcome = _outcome(_call_observer, obj, call)
+        if outcome != first[call]:
+            res.violation((PROPERTY, 'observer-result-unstable', name, call, 'after-failed-calls'),
+                          'an observer returns the same result each time, whether earlier calls succeeded or not',
+                          '%s(): %s before; after field %s was set to %r (%d observer calls failed) and set back: %s' % (
+                              call, _brief(first[call]), field.name, bad, failed, _brief(outcome)))
+            return
 
 
 def hash_of(value):
